@@ -63,7 +63,76 @@ def hintLine (wrap v hints rounds : String) : String :=
     | _ => "bad-op"
   | _, _, _ => "bad-op"
 
+/-! `c01.wrap`: descriptors of the hand-written wrapper structs (not registered, so not in `Mtv.Gen.registry`) come
+with the operation, written by the harness from reflection over the working tree:
+`<hexid>:<FlagIndex|->:<field>/<field>/…`, field = `<type>[@<bit>[b]]`, type as in `parseElem?` with a leading `v`
+for a vector. -/
+partial def parseTyTok (cs : List Char) : Option Ty :=
+  match cs with
+  | 'v' :: r => (parseTyTok r).map Ty.vec
+  | _ => parseElem? (String.ofList cs)
+
+def splitOnChar (c : Char) (cs : List Char) : List (List Char) :=
+  cs.foldr (fun x acc =>
+    if x == c then [] :: acc else
+    match acc with
+    | [] => [[x]]
+    | a :: rest => (x :: a) :: rest) [[]]
+
+def parseField? (i : Nat) (cs : List Char) : Option FieldDesc :=
+  match splitOnChar '@' cs with
+  | [t] => (parseTyTok t).map fun ty => ⟨s!"f{i}", ty, none⟩
+  | [t, fl] =>
+    let inBits := fl.getLast? == some 'b'
+    let digits := if inBits then fl.dropLast else fl
+    match parseTyTok t, (String.ofList digits).toNat? with
+    | some ty, some b => some ⟨s!"f{i}", ty, some ⟨b, inBits⟩⟩
+    | _, _ => none
+  | _ => none
+
+def parseDesc? (s : String) : Option CtorDesc :=
+  match splitOnChar ':' s.toList with
+  | [idh, fi, fs] =>
+    let fidx : Option (Option Nat) :=
+      if fi == ['-'] then some none else (String.ofList fi).toNat?.map some
+    let fields := (splitOnChar '/' fs).zipIdx.mapM fun (f, i) => parseField? i f
+    match hexNat? idh, fidx, fields with
+    | some id, some k, some fds => some ⟨id, "wrapper", .struct, k, [], fds⟩
+    | _, _, _ => none
+  | _ => none
+
+mutual
+partial def valHasId (ids : List Nat) : Val → Bool
+  | .obj id fs => ids.contains id || valsHaveId ids fs
+  | .vec _ items => valsHaveId ids items
+  | _ => false
+partial def valsHaveId (ids : List Nat) : List Val → Bool
+  | [] => false
+  | v :: vs => valHasId ids v || valsHaveId ids vs
+end
+
+/-- the encoder needs no registration (it walks the Go value): the model's encoder on the registry extended by
+the wrapper descriptors. Decoding: the wrapper NAMED at the top is known to the decoder by its type; everything
+below it is decoded by constructor id against the registered constructors, where the wrappers are not - the model
+has one registry for both, so the driver applies that rule itself: a wrapper below the top is refused, and
+decoding the whole by id is answered on the registry as it is. -/
+def wrapLine (descs v : String) : String :=
+  match (splitComma descs).mapM parseDesc?, parse? v with
+  | some ws, some (.obj id fs) =>
+    if !(ws.any (·.id == id)) then "bad-op" else
+    match encVal (Mtv.Gen.registry ++ ws) (.obj id fs) with
+    | .ok bs =>
+      let named :=
+        if valsHaveId (ws.map (·.id)) fs then "err"
+        else showOutcome (decodeNamed (Mtv.Gen.registry ++ ws.filter (·.id == id)) noGunzip (fuelFor bs) id bs)
+      let unk := showOutcome (decodeUnknown Mtv.Gen.registry noGunzip (fuelFor bs) [] bs)
+      s!"enc={showBytes bs} again=same spec=same named={named} unknown={unk}"
+    | .err _ => "enc=err"
+    | .panic _ => "enc=panic"
+  | _, _ => "bad-op"
+
 def handle : List String → String
+  | ["c01.wrap", descs, v] => wrapLine descs v
   | ["c01.hint", wrap, _ety, v, hints, rounds, spare] =>
     match spare.toNat? with
     | some k => if k ≤ 16 then hintLine wrap v hints rounds else "bad-op"
@@ -81,6 +150,27 @@ def handle : List String → String
       | .ok bs, _ => s!"enc={showBytes bs} named=- unknown=-"
       | .err _, _ => "enc=err"
       | .panic _, _ => "enc=panic"
+  | ["c01.dag", idHex, v, plan] =>
+    -- identity / aliasing of Go values (harness c01alias.go): values of the model are trees, so a Go value in
+    -- which objects or backing arrays are shared is answered by the model on the tree it unfolds to - the text of
+    -- the operation -, and every "did it change" comparison with `same` (the model's functions return values)
+    if !(["tree", "hc", "hcp", "arena", "arena3", "tnil"].contains plan) then "bad-op" else
+    match parse? v, hexNat? idHex.toList with
+    | some (.obj id fs), some id' =>
+      if id != id' then "bad-op" else
+      match Mtv.Gen.registry.find id with
+      | none => "bad-op"
+      | some d =>
+        if d.kind != .struct then "bad-op" else
+        match encVal Mtv.Gen.registry (.obj id fs) with
+        | .ok bs =>
+          if plan == "tnil" then s!"enc={showBytes bs}" else
+          let named := decodeNamed Mtv.Gen.registry noGunzip (fuelFor bs) id bs
+          let unk := decodeUnknown Mtv.Gen.registry noGunzip (fuelFor bs) [] bs
+          s!"enc={showBytes bs} tree=same arg=same again=same named={showOutcome named} unknown={showOutcome unk} inp=same twice=same indep=same ret=same"
+        | .err _ => "enc=err"
+        | .panic _ => "enc=panic"
+    | _, _ => "bad-op"
   | ["c01.msg", b, rest] =>
     -- PutMessage / PopMessage on a byte string followed by `rest`
     match parseBytes? b, parseBytes? rest with
